@@ -52,6 +52,20 @@ P['s_counter'] = prog([('counter', [('inc', F)], B('+', ('self',), V('inc'))),
                        ('dsp', [('a', F)], B('+', C('counter', a), C('counter', N(1))))])
 P['s_selftuple'] = prog([('acc', [('x', F)], ('lettuple', ['p', 'q'], ('self',), ('tuple', [B('+', V('p'), x), B('+', B('*', V('q'), N(0.5)), x)]))),
                          ('dsp', [('a', F)], C('acc', a))], self_arity={'acc': 2})
+# `self` holding a nested tuple, followed by another stateful site (a wrong cell size makes the two overlap)
+P['s_selfnested'] = prog([('acc3', [('x', F)], ('lettuple', ['p', ['q', 'r']], ('self',),
+                               ('tuple', [B('+', V('p'), x), ('tuple', [B('+', V('q'), N(2)), B('+', V('r'), N(3))])]))),
+                          ('cnt', [('x', F)], B('+', ('self',), x)),
+                          ('dsp', [('a', F)], ('lettuple', ['p', ['q', 'r']], C('acc3', a), ('let', 'k', C('cnt', N(1)),
+                               B('+', B('+', V('p'), B('*', V('q'), N(10))), B('+', B('*', V('r'), N(100)), B('*', V('k'), N(1000)))))))],
+                         self_arity={'acc3': [1, [1, 1]]})
+# a stateful call in an array-free but non-trivial position: as argument of a stateful call and as `if` condition, each followed by
+# a second site
+P['s_sitearg'] = prog([('cnt', [('x', F)], B('+', ('self',), x)),
+                       ('lp', [('x', F)], B('+', B('*', x, N(0.5)), B('*', ('self',), N(0.5)))),
+                       ('dsp', [('a', F)], ('let', 'p', C('lp', C('cnt', a)), ('let', 'q', C('cnt', N(100)), B('+', V('p'), V('q')))))])
+P['s_sitecond'] = prog([('cnt', [('x', F)], B('+', ('self',), x)),
+                        ('dsp', [('a', F)], ('let', 'p', ('if', B('-', C('cnt', N(1)), N(2)), a, N(0.5)), ('let', 'q', C('cnt', N(100)), B('+', V('p'), V('q')))))])
 P['s_mem'] = prog([('dsp', [('a', F)], B('+', ('mem', a), a))])
 P['s_mem2'] = prog([('dsp', [('a', F)], B('-', ('mem', ('mem', a)), ('mem', B('*', a, N(2)))))])
 P['s_delay'] = prog([('dsp', [('a', F)], ('delay', 5, a, N(3)))])
